@@ -486,7 +486,6 @@ func c10Types(c *Ctx) {
 	r.Ob("TYPES", "Point.Tags is map[string]string", "pkg/inimpl/guancecloud/input/point.go", okTags, "tag values are strings by type")
 }
 
-
 // rangeSourceType: for a key obtained by ranging over a map, the type of that map ("" otherwise).
 func rangeSourceType(key ssa.Value) string {
 	ex, ok := key.(*ssa.Extract)
